@@ -603,7 +603,7 @@ func init() {
 			if tier == "thorough" {
 				return 1500
 			}
-			return 200
+			return 400
 		},
 		RunUnit: func(c *explore.Ctx) {
 			var a C09Arg
